@@ -216,7 +216,6 @@ func c03(r *rand.Rand, tier string, tr *trace.Buf, extra map[string]interface{})
 	extra["boundary_hits"] = boundary
 }
 
-
 // holdEvent: one key object used the way an application uses it - many calls, the message passed in ONE
 // buffer that is rewritten in place between calls, every returned signature / sealed message kept by the
 // caller - and everything that was returned is looked at again after the last call.
